@@ -46,6 +46,8 @@ def axes(tier):
 def payloads(m, n, seed, impulses):
     d = rm.generic_complex((m, n), seed, tag=m * 10 + n)
     yield 'dense', d
+    yield 'zeros', np.zeros((m, n), dtype=complex)
+    yield 'tiny', d * 1e-17                    # absolute thresholds show on faint inputs
     if impulses:
         # other legal input classes: column-major layout, a transposed view, real and integer data
         yield 'dense-fortran', np.asfortranarray(d)
@@ -84,7 +86,7 @@ def chk_fwd(case, acc, seed):
         sub = dict(case, payload=pname)
         f0 = f.copy()
         ref = rm.dft2(f, alpha, shape, shift, offset, unitary)
-        tol = 1e-9 * (1 + np.sum(np.abs(f))) * max(norm, 1e-3)
+        tol = 1e-9 * (np.sum(np.abs(f)) if pname == 'tiny' else 1 + np.sum(np.abs(f))) * max(norm, 1e-3)
         kw = dict(shape=shape, shift=shift, offset=offset, unitary=unitary)
         # cold
         engine.reset_library_state()     # cold: every library cache cleared
@@ -124,6 +126,67 @@ def chk_fwd(case, acc, seed):
         acc.cls('aniso' if ar != ac else 'iso')
         if shift != (0, 0) and offset != (0, 0):
             acc.cls('shift+offset')
+
+
+def chk_large(case, acc, seed):
+    """sizes beyond the small scope for the configuration a fast path would single out: one full period, no shift, no offset"""
+    import lentil.fourier as lf
+    m, n = case['m'], case['n']
+    f = rm.generic_complex((m, n), seed, tag=m + n)
+    alpha = (1.0 / m, 1.0 / n)
+    for unitary in (True, False):
+        for form in ('pair', 'scalar'):
+            if form == 'scalar' and m != n:
+                continue
+            a = alpha if form == 'pair' else 1.0 / n
+            ref = rm.dft2(f, alpha, unitary=unitary)
+            got = lf.dft2(f, a, unitary=unitary)
+            tol = 1e-9 * (1 + np.sum(np.abs(f)))
+            if rm.maxerr(got, ref) > tol:
+                acc.violation(f'dft2:value:full-period:large:{"odd" if (m % 2 or n % 2) else "even"}', dict(case, unitary=unitary, alpha_form=form),
+                              f'{m}x{n} full-period transform differs from the defining sum by {rm.maxerr(got, ref):.3e}')
+            back = lf.idft2(got, a, unitary=unitary)
+            if rm.maxerr(back, f) > tol:
+                acc.violation(f'idft2:roundtrip:large:unitary={unitary}', dict(case, unitary=unitary, alpha_form=form), f'round trip error {rm.maxerr(back, f):.3e}')
+            # an explicitly requested equal shape, and a shifted / offset call of the same size
+            g2 = lf.dft2(f, a, shape=(m, n), unitary=unitary)
+            if rm.maxerr(g2, ref) > tol:
+                acc.violation('dft2:value:full-period:large:explicit-shape', dict(case, unitary=unitary), f'{rm.maxerr(g2, ref):.3e}')
+    g3 = lf.dft2(f, alpha, shift=(0.5, -1), offset=(1, 0))
+    if rm.maxerr(g3, rm.dft2(f, alpha, shift=(0.5, -1), offset=(1, 0))) > 1e-9 * (1 + np.sum(np.abs(f))):
+        acc.violation('dft2:value:large:shift+offset', case, 'large shifted/offset transform differs from the defining sum')
+    acc.cls('large')
+    acc.case(case, outcome='large')
+
+
+def chk_after_error(case, acc, seed):
+    """a refused call must not leave anything behind: the same transforms, cold and after calls that raise"""
+    import lentil.fourier as lf
+    m, n = case['m'], case['n']
+    f = rm.generic_complex((m, n), seed, tag=3)
+    alpha = (1.0 / m, 1.0 / n)
+
+    def calls():
+        return [np.array(lf.dft2(f, alpha), copy=True), np.array(lf.dft2(f, 0.2, shape=(4, 3), shift=(0.5, 0), offset=(1, -1)), copy=True),
+                np.array(lf.idft2(f, alpha), copy=True), np.array(lf.idft2(f, alpha, unitary=False), copy=True)]
+
+    engine.reset_library_state()
+    cold = calls()
+    engine.reset_library_state()
+    errors = 0
+    for bad in (lambda: lf.idft2(f, alpha, out=np.zeros((m, n))), lambda: lf.dft2(f, alpha, out=np.zeros((m, n), dtype=np.int64)),
+                lambda: lf.dft2(f, alpha, out=np.zeros((m + 1, n), dtype=complex)), lambda: lf.idft2(np.zeros((2, 2, 2)), 0.5),
+                lambda: lf.dft2(f, alpha, shape=(2, 2, 2))):
+        try:
+            bad()
+        except Exception:
+            errors += 1
+    warm = calls()
+    for k, (a, b) in enumerate(zip(cold, warm)):
+        if not np.array_equal(a, b):
+            acc.violation('dft2:history:after-refused-call', dict(case, call=k), f'after {errors} refused calls the same transform differs from the cold result by {rm.maxerr(a, b):.3e}')
+    acc.cls('after-error')
+    acc.case(case, outcome='after-error')
 
 
 def chk_out_dtype(case, acc, seed):
@@ -184,7 +247,7 @@ def chk_inv(case, acc, seed):
         acc.cls('inverse')
 
 
-DISPATCH = {'fwd': chk_fwd, 'inv': chk_inv, 'outdtype': chk_out_dtype}
+DISPATCH = {'fwd': chk_fwd, 'inv': chk_inv, 'outdtype': chk_out_dtype, 'large': chk_large, 'aftererr': chk_after_error}
 
 
 def t_sub(arg, acc):
@@ -201,10 +264,19 @@ def t_sub(arg, acc):
         chk_out_dtype({'kind': 'outdtype', 'm': m, 'n': n}, acc, seed)
 
 
+def t_extra(arg, acc):
+    DISPATCH[arg['case']['kind']](arg['case'], acc, arg['seed'])
+
+
 def run(tier, seed, acc, procs=None):
     ax = axes(tier)
     pre = engine.tree_prefixes(ax, 3, acc)
     tasks = [('t_sub', {'tier': tier, 'seed': seed, 'ctx': p}) for p in pre]
+    big = [(16, 16), (17, 17), (16, 21), (21, 16), (19, 23), (32, 32), (33, 33)] + ([(40, 37), (64, 63)] if tier != 'quick' else [])
+    for m, n in big:
+        tasks.append(('t_extra', {'seed': seed, 'case': {'kind': 'large', 'm': m, 'n': n}}))
+    for m, n in ((3, 3), (4, 5), (17, 16)):
+        tasks.append(('t_extra', {'seed': seed, 'case': {'kind': 'aftererr', 'm': m, 'n': n}}))
     engine.run_parallel(MOD, tasks, acc, procs)
     return {
         'rule': 'full cross product input shape x output shape x alpha (scalar/pair, incl. full period, negative, '
@@ -215,7 +287,7 @@ def run(tier, seed, acc, procs=None):
                    'alphas': [a for a, _ in alphas(3, 4)], 'shifts': SHIFTS, 'offsets': OFFSETS},
         'assumptions': ['reference: defining double sum with exact rational phase reduction (mc/refmodel.py)',
                         'tolerance 1e-9*(1+sum|f|)*norm; structural errors are >= 1e-3 on these payloads'],
-        'require': {'aniso': 1000, 'iso': 1000, 'shift+offset': 1000, 'inverse': 100},
+        'require': {'large': 7, 'after-error': 3, 'aniso': 1000, 'iso': 1000, 'shift+offset': 1000, 'inverse': 100},
     }
 
 
